@@ -1453,6 +1453,21 @@ def _unique(fr, x, *a, **kw):
     else:
         ctx.assume(z3.And(nu == 1, U(0) == O.to_z3(s())))
     ctx.assume(z3.ForAll([j, k], z3.Implies(z3.And(0 <= j, j < k, k < nu), U(j) < U(k)), patterns=[z3.MultiPattern(U(j), U(k))]))
+    # ground instances of the first axiom that the usual client needs (one-hot-structured argument: the cell that
+    # holds the 1 of the first column, and another cell of that column) - instances of an assumed universal fact,
+    # named so that the solver does not have to find them by model-based instantiation
+    try:
+        from .spec import onehot_witness
+        wfn = onehot_witness(x, 1) if x.rank >= 2 else None
+    except Exception:
+        wfn = None
+    if wfn is not None:
+        w0 = wfn(*([0] * (x.rank - 1)))
+        for cidx in (w0, ite(O.eq(w0, 0), 1, 0)):
+            i0 = [0, cidx] + [0] * (x.rank - 2)
+            iz = [O.to_z3(v) if O.is_sym(v) else z3.IntVal(int(v)) for v in i0]
+            inb = And(*[And(0 <= a_, a_ < d) for a_, d in zip(i0, x.shape)])
+            ctx.assume(Implies(inb, And(0 <= pos(*iz), pos(*iz) < nu, O.eq(U(pos(*iz)), s(*i0)))))
     ctx.trusted.add('axiom: torch.unique returns the strictly increasing vector of the values that occur in its argument')
     out = Tn.fresh([nu], lambda i: U(O.to_z3(i)), x.kind, lib=x.lib)
     out.unique_of = {'pos': pos, 'U': U, 'n': nu, 'src': x}
